@@ -196,4 +196,63 @@ PROPS = {
                         "property states; double-bit errors are covered when less than 32767 bit positions apart (always the case "
                         "for PDUs of up to 4095 octets)"],
     },
+    "C05": {
+        "props_files": ["C05"],
+        "theorems": ["pdu_roundtrip", "pdu_len", "payload_len_announced", "header_roundtrip",
+                     "uo_roundtrip", "uo_len", "report_roundtrip", "encodings_are_bytes"],
+        "components": ["codec"],
+        "rule": "cases = groups of <= 25 ops on the codec: E <PDU value> (encode + announced lengths), D <hex> (PDU::decode + "
+                "re-encoding), EU/DU (UserOperation), ER/DR (daemon::Report); values in an s-expression syntax. Streams: header sweep "
+                "(every version x type x direction x mode x crc x large x segctl x segmeta x id width x seq width), every enum value "
+                "of every directive / TLV / status table / user operation x id widths 1/2/4/8 x both size flags x CRC on/off, seeded "
+                "random well-formed values with boundary lengths 0/1/255 (63 for segment metadata) and boundary offsets, ~5% values "
+                "outside the wire-format limits (truncation behaviour), decode of the valid encodings; non-trivial = at least 2 ops; "
+                "distinct = distinct op-list text",
+        "explanation": "Theorems over Model/Codec.v + Model/CodecUser.v for all well-formed values (unbounded N, any lengths); enum "
+                       "discriminants come from Gen/Enums.v, regenerated from the Rust sources on every run, with injectivity / "
+                       "bit-width side conditions re-decided by computation (Proofs/EnumsP.v). The model is tied to cfdp-core by "
+                       "differential execution of the extracted model and the real encode/decode/encoded_len on the same values and "
+                       "bytes, plus an independent oracle on the real code: decode(encode v) == v and encoded_len == bytes produced.",
+        "level_text": "Full proof on the model: for every well-formed PDU (any header field combination, id widths 1/2/4/8, small and "
+                      "large file-size encodings, CRC on or off, every directive, every metadata TLV, file data), every reserved user "
+                      "operation and every status Report, decode(encode v) = v and the announced length equals the bytes produced are "
+                      "Coq theorems; the model is tied to the Rust codec by byte-for-byte differential execution with exhaustive "
+                      "discrete fields and generated remaining fields. This is the right level because the property quantifies over "
+                      "all values of a pure function pair.",
+        "level_note": "Trusted: Coq kernel; extraction (ExtrOcamlBasic); OCaml driver and Rust harness parsing/printing; the UTF-8 "
+                      "validator of the model vs String::from_utf8 is compared, not proved. PDU::encoded_len returns u16: for PDUs "
+                      "longer than 65535 bytes in total (data field > 65503 with the largest header) the Rust value overflows; the "
+                      "theorem is over N and the streams stay below that size.",
+        "assumptions": ["file names compare by bytes (stricter than Utf8PathBuf's component-wise ==)",
+                        "whole-PDU encoded_len is compared only for PDUs of at most 65535 bytes (the API returns u16)"],
+    },
+    "C06": {
+        "props_files": ["C06"],
+        "theorems": ["decode_total", "decode_reads_bounded", "decode_canonical", "loops_fuel_independent",
+                     "accepted_crc_frame", "per_type_decode_total",
+                     "uo_decode_total", "uo_decode_canonical", "report_decode_total", "report_decode_canonical"],
+        "components": ["codec"],
+        "rule": "cases = groups of <= 25 ops; malformed stream: all byte strings of length <= 4 over {00,01,22,7f,80,ff} (PDU) and "
+                "<= 3 (user operation after 'cfdp', Report), every truncation and every single-byte replacement by {00,01,7f,80,ff} of "
+                "valid encodings of every PDU kind x size flag x crc, of every user operation and of Report, the header length field "
+                "forced to {0,1,255,65535}, seeded random strings; the same (valid, valid + trailing bytes, truncations, replacements, "
+                "short and random strings) for the public per-type decoders PDUHeader / Operations / FileDataPDU / MetadataTLV / "
+                "VariableID / FileStoreRequest / FileStoreResponse with the number of bytes consumed; a corpus of 17 494 UTF-8 boundary "
+                "file names; plus the well-formed streams of C05; non-trivial = at least 2 ops; "
+                "distinct = distinct op-list text",
+        "explanation": "Theorems over the same decode functions: total on all byte strings with an explicit Panic outcome for what the "
+                       "dev profile checks (u8+1, u16-2, unwrap, oversize allocation), accepted values well-formed and canonical. "
+                       "Tied to the real decoders by differential execution under catch_unwind with a counting allocator; oracle on "
+                       "the real code: no panic, peak allocation bounded, re-encode/decode fixpoint.",
+        "level_text": "Full proof on the model: for every byte string PDU::decode (and UserOperation::decode, Report::decode, the "
+                      "per-type decoders) returns a value or an error, never the Panic outcome that models overflow checks, unwrap and "
+                      "oversize reads; every read is bounded by 65535 bytes (stated on the instrumented read primitive); every accepted "
+                      "PDU, with its length field recomputed, is well-formed and re-encodes to bytes that decode to itself. Termination "
+                      "is by construction (structural recursion / fuel = buffer length). The allocation bound on the real code is "
+                      "measured per decode, not proved.",
+        "level_note": "Trusted: Coq kernel; extraction; OCaml driver and Rust harness; catch_unwind and the counting global allocator "
+                      "(measurement: peak heap growth per decode <= 64 KiB + 3 x input length + 4 KiB).",
+        "assumptions": ["inputs are byte strings (list N with every element < 256)",
+                        "heap growth of the real decoder is measured, not proved"],
+    },
 }
